@@ -23,6 +23,11 @@ import (
 // only one copy makes is replaced by the callee's own bag (so extracting or inlining a helper in
 // one copy alone is not a difference). A slip applied to one copy only – a dropped increment, a
 // different helper, a guard with another strictness or another quantity – remains a difference.
+type boundCall struct {
+	u    *FuncUnit
+	call *ast.CallExpr
+}
+
 func ruleR36(c *Ctx) {
 	m := c.m
 	var coll, ref *TreeKind
@@ -43,6 +48,12 @@ func ruleR36(c *Ctx) {
 	interesting := regexp.MustCompile(`prefixLen|childrenLen|depth|len\(|prefixDiff|maxPrefixLen`)
 
 	type bagT map[string]int
+	type boundArg struct {
+		u *FuncUnit
+		e ast.Expr
+	}
+	var binding map[*types.Var]boundArg // parameters of a helper being expanded → the caller's arguments
+	firstCall := map[*FuncUnit]boundCall{}
 	// atoms of an expression: the quantities it is computed from
 	var atoms func(u *FuncUnit, e ast.Expr, out map[string]bool, depth int)
 	atoms = func(u *FuncUnit, e ast.Expr, out map[string]bool, depth int) {
@@ -63,6 +74,15 @@ func ruleR36(c *Ctx) {
 		switch x := e.(type) {
 		case *ast.Ident:
 			name := x.Name
+			if v, _ := info.ObjectOf(x).(*types.Var); v != nil && binding != nil {
+				if ba, ok := binding[v]; ok {
+					saved := binding
+					binding = nil
+					atoms(ba.u, ba.e, out, depth+1)
+					binding = saved
+					return
+				}
+			}
 			if keyName.MatchString(name) {
 				out["KEY"] = true // however the key bytes were prepared (R08 compares that)
 				return
@@ -288,6 +308,9 @@ func ruleR36(c *Ctx) {
 					out[tok]++
 					if cu := m.ByObj[f]; cu != nil && cu.Body != nil {
 						calls[tok] = append(calls[tok], cu)
+						if _, seen := firstCall[cu]; !seen {
+							firstCall[cu] = boundCall{u, x}
+						}
 					}
 				} else if isBuiltinCall(info, x, "copy") && len(x.Args) == 2 {
 					out["call copy→"+storeTarget(u, x.Args[0])]++
@@ -760,7 +783,20 @@ func ruleR36(c *Ctx) {
 					}
 					callee := cx[tok][0]
 					sub, subCalls := bagT{}, map[string][]*FuncUnit{}
+					if fc, ok := firstCall[callee]; ok && callee.Type != nil && callee.Type.Params != nil {
+						binding = map[*types.Var]boundArg{}
+						i := 0
+						for _, f := range callee.Type.Params.List {
+							for _, nm := range f.Names {
+								if v, _ := info.Defs[nm].(*types.Var); v != nil && i < len(fc.call.Args) {
+									binding[v] = boundArg{fc.u, fc.call.Args[i]}
+								}
+								i++
+							}
+						}
+					}
 					bagOf(callee, sub, subCalls)
+					binding = nil
 					helps, anyCall := false, false
 					for st, sn := range sub {
 						if strings.HasPrefix(st, "call ") {
